@@ -1382,6 +1382,8 @@ def run(chk: core.Check) -> int:
         "ast.parse(ast.unparse(x)) = x on emitted statements, json, the file system and argparse are CPython's; type_comment is None on every emitted node",
         "optimise_imports' seen-key is the string concatenation module+name+asname; the model uses the triple (no collision is possible on the four module tables)",
         "str.isdigit / str.isidentifier / repr are modelled on ASCII plus printable non-ASCII letters (the generators stay inside)",
+        "infer() is modelled (GenModule.inferNode): SQLAlchemy iff ANY plain-name base is `Base`, argparse iff ANY positional parameter is `argument_parser`; the harness "
+        "hands the model the base ids / parameter names read with stdlib ast; tied by the `parser` op on classes with 0-3 bases in every order and by the CLI runs",
     ]
     component_ops(chk)
     cli_matrix(chk)
@@ -1390,10 +1392,15 @@ def run(chk: core.Check) -> int:
             chk.notes.append("finding %s not observed in this run (its witness no longer fails: stale?)" % it["id"])
     return chk.finish(
         "component ops: random templates / identifiers / strings / node kinds / statement lists against the real functions; CLI: one witness per known finding and "
-        "positive controls, then random (input kind x 1..5 generated entries x parse explicit/infer x 8 emit kinds x 14 templates x infer-imports x prepend x "
+        "positive controls (incl. `class Group(TimestampMixin, Base)` in five base orders, read by infer and by --parse sqlalchemy), then random (input kind: classes with "
+        "0-3 bases / keywords / decorators, pydantic-shaped, SQLAlchemy classes with mixins around `Base`, hybrid classes, Tables, (async) functions, argparse "
+        "functions, JSON files, mixed-kind modules x 1..5 generated entries x parse explicit (every kind whose parser is meant for the selected entries) / infer, "
+        "with an explicit-kind twin for a third of the infer runs x 8 emit kinds x 14 templates x infer-imports x prepend x "
         "imports-from-file x output exists) runs of the real `python -m cdd gen`; compared: exit status, exception class, file bytes untouched under the guard, "
         "the written module as an AST (imports, symbols, __all__), JSON $ids; oracle on every real output: compiles, one symbol per entry named by the template, "
-        "__all__ exact and equal to the defined names, each symbol read back by cdd's own parser has the source entry's parameters, every typing/SQLAlchemy Name "
+        "__all__ exact and equal to the defined names, each symbol read back by cdd's own parser has the parameter names (in order) and scalar type categories that "
+        "an independent stdlib-ast reading of the source entry gives (SQLAlchemy: the Column(...) assignments and their type argument), infer and the explicit kind "
+        "write the same file, every typing/SQLAlchemy Name "
         "imported under inference, existing file refused and untouched; non-trivial = the run succeeded or the guard was exercised; distinct by full configuration")
 
 
